@@ -77,6 +77,14 @@ class Model:
         self.send('reset')
         self.flush()
 
+    def restart(self):
+        """after an interrupted exchange the pipe is out of step: start a fresh driver"""
+        try:
+            self.p.kill()
+        except Exception:
+            pass
+        self.__init__()
+
     def ops(self, ops):
         for op in ops:
             self.send(' '.join(op))
